@@ -153,7 +153,7 @@ def main():
             "guard": "verif",
             "enable": "go build -tags verif (harness module with replace github.com/goghcrow/go-co => /repo)",
             "baseline_off_cmd": "cd /repo && GOFLAGS=-mod=mod go test -vet=off -count=1 $(go list ./... | grep -v -e rewriter/test/src -e example/microthread -e rewriter/test/out_tmp)",
-            "source_commits": [],
+            "source_commits": ["2dfbefe"],
             "add_only": True,
         },
         "engines": [{"name": "coq+correspondence", "path": "/verif/coq, /verif/harness, /verif/lib",
